@@ -36,49 +36,56 @@ PID = "C18"
 TITLE = "Cache replays exactly the stored flow and never serves a truncated one"
 LEAN_MODULES = ["LenaModel.Props.C18", "LenaModel.Props.C18Split", "LenaModel.Props.C18Ctx", "LenaModel.Props.C18Spec"]
 LEAN_SOURCES = ["LenaModel/Model/C18.lean", "LenaModel/Model/C18Split.lean", "LenaModel/Model/C18Ctx.lean",
-                "LenaModel/Model/C18Spec.lean", "LenaModel/Lemmas/C18.lean", "LenaModel/Lemmas/C18Split.lean",
+                "LenaModel/Model/C18Spec.lean", "LenaModel/Model/C18Exc.lean", "LenaModel/Lemmas/C18.lean", "LenaModel/Lemmas/C18Split.lean",
                 "LenaModel/Props/C18.lean", "LenaModel/Props/C18Split.lean", "LenaModel/Props/C18Ctx.lean",
                 "LenaModel/Props/C18Spec.lean"]
 DRIVER = "drivers/C18.lean"
 THEOREMS = [
-    "Lena.C18.hoisted_same_chain",
+    # the theorems that carry the property (they fail for a model with the historical defects: rename on abort,
+    # writing to the final name, close without remove, one buffer stored as the flow)
     "Lena.C18.run_yields_flow",
-    "Lena.C18.run_exhausted_iff",
     "Lena.C18.first_run_transparent",
     "Lena.C18.first_run_does_not_touch_cache_file",
     "Lena.C18.first_run_stores",
     "Lena.C18.replay_exact_no_pull",
-    "Lena.C18.replay_last",
     "Lena.C18.first_complete_run_then_replay",
-    "Lena.C18.recompute_restores_first_run",
-    "Lena.C18.drop_spec",
-    "Lena.C18.drop_restores_first_run",
+    "Lena.C18.buildHoisted_eq",
     "Lena.C18.interrupted_run_keeps_cache_files",
     "Lena.C18.closed_run_leaves_no_tmp",
     "Lena.C18.step_final_cases",
     "Lena.C18.cache_complete",
     "Lena.C18.later_run_serves_complete_flow",
-    "Lena.C18.interrupted_recompute_keeps_old_cache",
-    "Lena.C18.nextUppers_spec",
-    "Lena.C18.drive_spec",
-    # a Cache in a member of Split (Props/C18Split.lean)
+    "Lena.C18.stored_cache_persists",
+    "Lena.C18.every_later_run_replays",
     "Lena.C18.run_touches_only_own_caches",
-    "Lena.C18.effBufsize_patched",
-    "Lena.C18.splitLoop_whole",
     "Lena.C18.split_whole_eq_two_runs",
     "Lena.C18.split_whole_stores",
-    "Lena.C18.split_pinned_truncates",
     "Lena.C18.split_bare_replay",
+]
+# support: instances and restatements of the above, proof lemmas, lemmas about the model's own encodings, the
+# machine-checked counterexample for a rule /repo no longer has, and the decision lemmas for the executable vocabulary
+AUX_THEOREMS = [
+    "Lena.C18.hoisted_same_chain",
+    "Lena.C18.run_exhausted_iff",
+    "Lena.C18.replay_last",
+    "Lena.C18.recompute_restores_first_run",
+    "Lena.C18.drop_spec",
+    "Lena.C18.drop_restores_first_run",
+    "Lena.C18.interrupted_recompute_keeps_old_cache",
+    "Lena.C18.step_keeps_stored",
+    "Lena.C18.nextUppers_spec",
+    "Lena.C18.drive_spec",
+    "Lena.C18.effBufsize_patched",
+    "Lena.C18.splitLoop_whole",
+    "Lena.C18.split_pinned_truncates",
     "Lena.C18.containsCache_complete",
     "Lena.C18.effBufsizeTree_none",
     "Lena.C18.effBufsize_eq_tree",
     "Lena.C18.effBufsizeTree_wrap",
-    # file names from the static context (Props/C18Ctx.lean)
     "Lena.C18.resolve_tcache_name",
     "Lena.C18.nameId_inj",
     "Lena.C18.nameId_ge",
     "Lena.C18.run_leaves_other_names",
-    # the executable vocabulary decides the propositions of the statements (Props/C18Spec.lean)
     "Lena.C18.distinctB_iff",
     "Lena.C18.noFilledB_iff",
     "Lena.C18.modeOkB_iff",
@@ -121,9 +128,10 @@ ASSUMPTIONS = [
     "active at the same time on one cache file are outside the property's histories and are neither modelled nor "
     "generated (there the later run's os.replace fails with FileNotFoundError after it has yielded its whole flow; no "
     "truncated cache is stored or served)",
-    "Split: modelled for one member that is a Sequence (or a bare Cache) after arbitrary outer elements, with the "
-    "buffer-size rule of 7235571 (a Sequence member with a Cache makes Split read the whole flow at once; the pinned "
-    "rule is kept in the model as effBufsize false and proved to truncate).  Split fills its buffer from its own input "
+    "Split: modelled for one member that is a Sequence (or a bare Cache) after arbitrary outer elements; the driver "
+    "predicts the buffer-size rule of /repo (7235571: a Sequence member with a Cache makes Split read the whole flow at "
+    "once) and nothing is read from the tree under test - reverting 7235571 gives correspondence disagreements and "
+    "oracle failures; the old rule is kept as effBufsize false only for the counterexample split_pinned_truncates.  Split fills its buffer from its own input "
     "before it runs a member: the input of the Split is consumed even when the member replays a cache (Split's "
     "documented schedule, C03); an exception of the outer pipeline may therefore arrive before earlier values were "
     "yielded - the oracle accepts a prefix there.  Members of type fill/compute, fill/request and several members "
@@ -133,6 +141,37 @@ ASSUMPTIONS = [
     "anyway); modelled as it is, not demanded by the oracle",
     "an interrupted recomputation keeps the old complete cache (theorem interrupted_recompute_keeps_old_cache, "
     "validated by the correspondence); the statement would also allow dropping it, so the oracle accepts both",
+    "exception classes: the source and the elements raise Exception subclasses, KeyboardInterrupt, SystemExit, a "
+    "direct BaseException subclass and GeneratorExit (at every position, in quick and thorough); the model has one "
+    "outcome for all classes because the transcribed code has no except clause (Model/C18Exc.lean attributes the class "
+    "for the report).  A consumer that raises in its own frame is, for the Cache, a consumer that stops (the generators "
+    "are finalised when the traceback is released): covered by stop + close/leak.  Errors of the Cache itself "
+    "(PicklingError of an unpicklable value - outside 'picklable values' -, OSError/disk full from dump or open) are "
+    "neither modelled nor generated",
+    "snapshot at dump time: pickle.dump serialises the value when it is called, before downstream sees the object; "
+    "the value kind 'mut' (a list with a nested context that every map element changes in place and passes on) checks "
+    "that the stored flow is the flow as it ENTERED the cache; in the model values are immutable integers and dump and "
+    "yield are one step",
+    "lengths: the theorems are unbounded; the tie to the code is validated on flows of 0..6 values in the bulk of the "
+    "cases and on 63..65, 70, 1001 values (thorough also 129, 1000, 1100, 2500, 3000) in family L, including a member of "
+    "Split with the default bufsize=1000",
+    "laziness: the model (buildEls drops the incoming chain unstarted when a cache exists) and the no-pull clause inside "
+    "a Sequence/Source assume that every upstream `run` and the source are generator functions - lena's convention. "
+    "Sequence.run still CALLS el.run(flow) of every upstream element and Source.__call__ calls the source: an element "
+    "whose run is an ordinary method consuming its input is run on every replay unless the Cache is hoisted (this is "
+    "what alter_sequence is for).  Judgement: the Sequence clause of the statement is meant for lazy elements; family G "
+    "runs eager elements (oracle only, not modelled): values, ends, storing and replay are checked for them, no-pull only "
+    "in the hoisted modes",
+    "one file-system instant per run: cache_exists (when run/alter_sequence is called), the open of _load_flow (first "
+    "pull) and the hoisting see the same file system; a kept hoisted Source called after drop_cache, or an operation "
+    "between run() and the first next(), is not generated (FileNotFoundError there is loud); storedFlow's "
+    "fileNotFound branch and nextBottom(load fresh) on a missing file are unreachable under cacheExists on the same fs",
+    "foreign files: an empty file at the cache name (an empty cache) and a stale temporary file of a killed process are "
+    "generated (op plant); 'exists but unreadable' (os.access) is not (the harness runs as root)",
+    "Split runs are not operations of `exec`: the history theorems (cache_complete, stored_cache_persists) range over "
+    "run / drop_cache / finalize; for Split the per-run theorems (split_whole_*) hold and the oracle checks histories "
+    "with Split runs.  splitLoop/drainLoop use fuel (number of buffers + 1); fuel exhaustion would return 'stopped' "
+    "and is excluded by proof only for the whole-flow case, by the correspondence for finite buffers",
     "permissions are modelled only as 'os.remove fails although something readable is at the name' (dropBlocked, "
     "exercised with a directory at the cache name); Python 2 branches of Cache.__init__ are unreachable",
 ]
@@ -156,6 +195,10 @@ RULE = ("quick and thorough: exhaustive families — A: one cache in 4 pipeline 
         "inside and outside a Split), repr, drop_cache with a directory at the name; E: one pipeline object (the same "
         "Source/Sequence/Cache/Split objects) run three times and after drop_cache. In the random histories 35% of the "
         "later runs re-use the pipeline object of an earlier run, 20% of the runs go through a Split. "
+        "K: KeyboardInterrupt / SystemExit / BaseException subclass / GeneratorExit raised by the source or an element at "
+        "value k (also before a Split); L: long flows (see ASSUMPTIONS); P: foreign files (empty cache file, stale "
+        "temporary file); V: a Slice(k) element instead of the consumer's stop; G: eager elements (oracle only). Value "
+        "kinds include 'mut': mutable values changed in place by every map element. "
         "Non-trivial: at least one run of the history yields a value.")
 
 MODES = ("source", "sequence", "hoist", "hoist_src", "meta", "bare_hoist", "bare_meta")
@@ -1578,7 +1621,9 @@ LEVEL_TEXT = ("Lean 4 theorems about a transcribed generator machine (Cache.run 
               "system), for all pipelines with distinct caches, all sources, all demands of the consumer, all ways of "
               "calling and all histories of run / drop_cache / finalize operations (no bound): a run yields the flow "
               "unaltered, a complete first run stores exactly the complete flow that entered the cache, a replay yields "
-              "exactly the stored values with no event upstream of the cache, hoisting builds the same generators, "
+              "exactly the stored values with no event upstream of the cache, Cache.alter_sequence builds the same "
+              "generators as Sequence.run (for lena.core.alter_sequence this is the transcribed observation that it returns "
+              "its argument), a stored cache persists through every history without drop/recompute of it, "
               "recompute and drop_cache restore first-run behaviour, an interrupted run changes no cache file, and over "
               "every history a cache file only ever holds the complete flow of a run that reached its normal end; a Cache "
               "in a Sequence member of Split is filled with the whole flow (Split = outer run + one ordinary run of the "
@@ -1588,6 +1633,10 @@ LEVEL_TEXT = ("Lean 4 theorems about a transcribed generator machine (Cache.run 
               "small scopes plus seeded random histories, and a direct oracle evaluates the statement on the real code.")
 LEVEL_NOTE = ("Trusted: Lean kernel (+ propext, Classical.choice, Quot.sound), the hand transcription validated by the "
               "correspondence run, CPython generator finalisation and pickle/os semantics as transcribed, the JSON "
-              "protocol. Concurrently active runs on one cache file and Split's per-buffer runs are outside the model.")
+              "protocol. 18 theorems carry the property, 26 more (instances, proof lemmas, encoding lemmas, decision "
+              "lemmas, one counterexample) are audited as support. Assumed, not proved: upstream elements are lazy "
+              "(generator functions); pickle snapshots the value at dump time; runs on one cache file do not overlap; "
+              "Split runs are not part of the history theorems; members of Split of other types, several members and "
+              "errors of the Cache itself (pickling, disk) are outside the model.")
 TECHNIQUE = "Lean 4 proof (one-step simulation + history invariant) over hand-written generator/file-system model + correspondence check"
 DESIGN_REF = "DESIGN.md section 3, C18"
